@@ -499,6 +499,19 @@ def compare_traces(case, ob, mo):
     return None
 
 
+def tally_instance(prop, mo):
+    """per-instance kernel-evaluated obligations: schedule checker and duration checker verdicts"""
+    t = prop.__dict__.setdefault("_inst", [0, 0, []])
+    if isinstance(mo, BaseException) or mo is None:
+        return
+    for name, v in (("sched_check", mo[2]), ("dur_check", mo[3])):
+        t[0] += 1
+        if v is True:
+            t[1] += 1
+        elif len(t[2]) < 5:
+            t[2].append(f"{name} = {v} on an explored tree")
+
+
 def observed_durations(par, kind, step_events):
     """oracle part: per-step signed duration sums from the observed time_evolve calls"""
     n = len(par)
@@ -617,7 +630,7 @@ class C05(Prop):
 
     def generate(self, ctx, stream, budget_scale=1):
         rng = ctx.rng(stream)
-        count = ctx.scale(54, 420) * budget_scale
+        count = ctx.scale(150, 1500) * budget_scale
 
         def extra(rng, j, par):
             return {"herm": j % 3 != 0, "coeffs": j % 4 == 1, "ttno_shuffle": j % 2 == 1,
@@ -646,9 +659,14 @@ class C05(Prop):
         return eval_models(ctx, cases, obs)
 
     def compare(self, case, ob, mo):
+        tally_instance(self, mo)
         if ob.get("construct"):
             return f"implementation raised in the constructor: {ob['exception']}"
         return compare_traces(case, ob, mo)
+
+    def extra_obligations(self, ctx):
+        n, ok, fails = self.__dict__.get("_inst", [0, 0, []])
+        return n, ok, fails
 
     def oracle(self, case, ob):
         if "exception" in ob:
